@@ -403,3 +403,22 @@ def year_step_ok(r, p, n):
         ok = ok and r._week_of_year == min(p._week_of_year, wiy(r._year))
         ok = ok and r._day_of_week == p._day_of_week
     return ok
+
+
+def time_fields_ok(h, m, s):
+    """Constructor-level validity of the time of day; None = omitted (start of
+    the period).  h, m, s may carry a decimal fraction on the last given unit."""
+    hh = 0 if h is None else h
+    mm = 0 if m is None else m
+    ss = 0 if s is None else s
+    ok = 0 <= hh and hh <= 24
+    if m is not None or s is not None or h is None:
+        ok = ok and (0 <= mm and mm < 60) and (0 <= ss and ss < 60)
+    return ok and (hh != 24 or (mm == 0 and ss == 0))
+
+
+def zone_fields_ok(tzh, tzm):
+    hh = 0 if tzh is None else tzh
+    mm = 0 if tzm is None else tzm
+    return (-99 <= hh and hh <= 99 and -59 <= mm and mm <= 59
+            and (hh <= 0 or mm >= 0) and (hh >= 0 or mm <= 0))
